@@ -279,7 +279,14 @@ fn show_access(a: OfdAccess) -> &'static str {
 
 /// Runs the operations through the `System` traits; returns (per-op observations, descriptor table,
 /// `cwd=… umask=…`).  `root` is the absolute path of the scratch root as this system sees it.
-fn run_ops<S>(sys: &S, root: &str, limit: u64, ops: &[&str]) -> (Vec<String>, String, String)
+fn run_ops<S>(
+    sys: &S,
+    root: &str,
+    limit: u64,
+    ops: &[&str],
+    init: bool,
+    hook: &mut dyn FnMut(&S, &str) -> Option<String>,
+) -> (Vec<String>, String, String)
 where
     S: Open
         + Read
@@ -333,10 +340,13 @@ where
     };
     let is_dir_fd = |sys: &S, fd: Fd| sys.fstat(fd).is_ok_and(|st| st.r#type() == FileType::Directory);
 
-    sys.chdir(&cstr(root)).expect("chdir to scratch root");
-    sys.umask(Mode::from_bits_retain(0o022));
-    let hard = sys_hard_limit(limit);
-    sys.setrlimit(Resource::NOFILE, LimitPair { soft: limit as _, hard: hard as _ }).expect("setrlimit");
+    // `init = false`: a forked child (`X` cases) continues from what it inherited
+    if init {
+        sys.chdir(&cstr(root)).expect("chdir to scratch root");
+        sys.umask(Mode::from_bits_retain(0o022));
+        let hard = sys_hard_limit(limit);
+        sys.setrlimit(Resource::NOFILE, LimitPair { soft: limit as _, hard: hard as _ }).expect("setrlimit");
+    }
 
     let mut outs = Vec::with_capacity(ops.len());
     // descriptors that refer to an anonymous temporary file (`tmp`): its mode is not observable by a script
@@ -574,7 +584,7 @@ where
                 },
                 None => "?".into(),
             },
-            _ => "?".to_string(),
+            _ => hook(sys, op).unwrap_or_else(|| "?".to_string()),
         };
         // keep track of which descriptor numbers name a temporary file
         let new_fd = o.strip_prefix('=').and_then(|n| n.parse::<i32>().ok());
@@ -650,7 +660,7 @@ fn compose(outs: &[String], tree: &str, fds: &str, tail: &str) -> String {
 fn seq_virtual(limit: u64, ops: &[&str]) -> String {
     let sys = VirtualSystem::new();
     populate_virtual(&sys.state, "/w", false);
-    let (outs, fds, tail) = run_ops(&sys, "/w", limit, ops);
+    let (outs, fds, tail) = run_ops(&sys, "/w", limit, ops, true, &mut |_, _| None);
     let mut lines = vec![];
     let root = sys.state.borrow().file_system.get("/w").unwrap();
     dump_virtual_tree(&root, "", &[], &mut lines);
@@ -751,6 +761,12 @@ fn leave_child(ordinal: usize) -> ! {
 }
 
 fn seq_real(limit: u64, ops: &[&str]) -> String {
+    seq_real_kind(limit, ops, false)
+}
+
+/// `x_case`: an `X` case (fork / wait): the child of the harness additionally gets a pipe on the two descriptors
+/// below the result descriptor, on which its own children report, and a watchdog alarm
+fn seq_real_kind(limit: u64, ops: &[&str], x_case: bool) -> String {
     let scratch = Scratch::new();
     let root = scratch.root();
     populate_real(&root, false);
@@ -791,11 +807,25 @@ fn seq_real(limit: u64, ops: &[&str]) -> String {
             for fd in 3..result_fd() {
                 libc::close(fd);
             }
+            if x_case {
+                let mut p = [0i32; 2];
+                if libc::pipe(p.as_mut_ptr()) == 0 {
+                    libc::dup2(p[0], result_fd() - 2);
+                    libc::dup2(p[1], result_fd() - 1);
+                    libc::close(p[0]);
+                    libc::close(p[1]);
+                }
+                libc::alarm(30);
+            }
         }
         let text = guarded(|| {
             // SAFETY: the only RealSystem instance of this (child) process
             let sys = unsafe { RealSystem::new() };
-            let (outs, fds, tail) = run_ops(&sys, &root_str, limit, ops);
+            let (outs, fds, tail) = if x_case {
+                x_real_body(&sys, &root_str, limit, ops)
+            } else {
+                run_ops(&sys, &root_str, limit, ops, true, &mut |_, _| None)
+            };
             format!("{}\n{}\n{}", outs.join(" "), fds, tail)
         });
         unsafe {
@@ -859,6 +889,303 @@ fn run_seq_case(case: &str) {
     let oracle = if v == r { "ok".to_string() } else { format!("FAIL:real-differs({})", first_difference(&v, &r)) };
     if std::env::var("C19_IMPL").as_deref() == Ok("real") {
         // validation of the pivot against the real kernel (`C19_IMPL=real c19 … | m_c19`): not used by check.py
+        emit(case, &r, "-");
+        return;
+    }
+    emit(case, &v, &oracle);
+}
+
+
+// ------------------------------------------------------------------------------------------
+// fork / wait leg: `X <class> lim=N; op; …; fork[op, op, …]; spawn[op, …]; wz; kz <SIG|0>; setlim N; …`
+//
+// The operations of the system-call leg and the non-terminating ones of the process/signal leg, in one process
+// that forks: `fork[…]` = fork, the child runs the body (continuing from what it inherited) and exits, the
+// parent waits -> `{tok tok … | F <child's descriptor table> | cwd=… umask=… lim=…}x<N>`; `spawn[…]` = the same
+// without the wait (the parent only synchronises on the child's termination: the child is a zombie) -> `{…}`;
+// `wz` = wait(pid of the most recent child) -> x<N> | s<SIG> | ECHILD; `kz <SIG|0>` = kill(that pid, SIG | null
+// signal) -> ok | ESRCH; `setlim N` = setrlimit(RLIMIT_NOFILE, soft N) -> ok.
+
+fn x_body(op: &str) -> Option<(bool, Vec<String>)> {
+    for (kind, wait) in [("fork[", true), ("spawn[", false)] {
+        if let Some(body) = op.strip_prefix(kind) {
+            let body = body.split(']').next().unwrap_or("");
+            return Some((wait, body.split(',').map(|s| s.trim().to_string()).filter(|s| !s.is_empty()).collect()));
+        }
+    }
+    None
+}
+
+/// `setlim` and the signal operations (which complete at once: the generator never lets a signal terminate or
+/// stop the process)
+fn x_plain_op<S>(sys: &S, op: &str, pending: &dyn Fn() -> Vec<&'static str>) -> Option<String>
+where
+    S: yash_env::system::Sigmask
+        + yash_env::system::Sigaction
+        + yash_env::system::SendSignal
+        + yash_env::system::CaughtSignals
+        + yash_env::system::GetPid
+        + SetRlimit,
+{
+    let w: Vec<&str> = op.split_whitespace().collect();
+    match w.as_slice() {
+        ["setlim", n] => {
+            let n: u64 = n.parse().ok()?;
+            let hard = sys_hard_limit(n);
+            Some(match sys.setrlimit(Resource::NOFILE, LimitPair { soft: n as _, hard: hard as _ }) {
+                Ok(()) => "ok".to_string(),
+                Err(e) => errno_name(e),
+            })
+        }
+        ["klast", ..] | ["kgrp", ..] | ["kpar", ..] | ["kself", ..] => None,
+        _ => match sig_op(sys, op, pending, None).now_or_never() {
+            Some(t) => t,
+            None => Some("BLOCKED".to_string()),
+        },
+    }
+}
+
+fn x_tail<S: yash_env::system::resource::GetRlimit>(sys: &S, tail: &str) -> String {
+    let lim = match sys.getrlimit(Resource::NOFILE) {
+        Ok(l) => l.soft.to_string(),
+        Err(e) => errno_name(e),
+    };
+    format!("{tail} lim={lim}")
+}
+
+/// the body of a forked child: (report text, exit status)
+fn x_child<S>(sys: &S, root: &str, limit: u64, body: &[String], pending: &dyn Fn() -> Vec<&'static str>) -> (String, i32)
+where
+    S: Open
+        + Read
+        + Write
+        + Seek
+        + Dup
+        + Close
+        + Fcntl
+        + Fstat
+        + Chdir
+        + GetCwd
+        + Umask
+        + SetRlimit
+        + yash_env::system::Pipe
+        + yash_env::system::Select
+        + yash_env::system::IsExecutableFile
+        + yash_env::system::resource::GetRlimit
+        + yash_env::system::Sigmask
+        + yash_env::system::Sigaction
+        + yash_env::system::SendSignal
+        + yash_env::system::CaughtSignals
+        + yash_env::system::GetPid,
+{
+    let mut code = 0;
+    let mut ops: Vec<&str> = vec![];
+    for b in body {
+        if let Some(n) = b.strip_prefix("exit ") {
+            code = n.trim().parse().unwrap_or(0);
+            break;
+        }
+        ops.push(b);
+    }
+    let (outs, fds, tail) = run_ops(sys, root, limit, &ops, false, &mut |s: &S, op: &str| x_plain_op(s, op, pending));
+    (format!("{} | F {} | {}", outs.join(" "), fds, x_tail(sys, &tail)), code)
+}
+
+fn x_virtual(limit: u64, ops: &[&str]) -> String {
+    use yash_env::system::{Exit as _, Fork as _, SendSignal as _, Wait as _};
+    let system = VirtualSystem::new();
+    populate_virtual(&system.state, "/w", false);
+    let executor = yash_executor::Executor::new();
+    system.state.borrow_mut().executor = Some(Rc::new(executor.spawner()));
+    let mut last_child: Option<yash_env::job::Pid> = None;
+    let mut hook = |sys: &VirtualSystem, op: &str| -> Option<String> {
+        if let Some((wait, body)) = x_body(op) {
+            let out: Rc<RefCell<String>> = Rc::new(RefCell::new(String::new()));
+            let (res, _) = sys.run_in_child_process(
+                (Rc::clone(&out), body, limit),
+                async move |csys: VirtualSystem, (out, body, limit): (Rc<RefCell<String>>, Vec<String>, u64)| {
+                    let c2 = csys.clone();
+                    let (text, code) = x_child(&csys, "/w", limit, &body, &move || virtual_pending(&c2));
+                    *out.borrow_mut() = text;
+                    csys.exit(yash_env::semantics::ExitStatus(code)).await;
+                },
+            );
+            return Some(match res {
+                Err(e) => errno_name(e),
+                Ok(pid) => {
+                    last_child = Some(pid);
+                    // the parent is not a task of the executor: run the child to its end
+                    for _ in 0..10_000 {
+                        executor.run_until_stalled();
+                        if executor.wake_count() == 0 {
+                            break;
+                        }
+                    }
+                    let rep = format!("{{{}}}", out.borrow());
+                    if wait {
+                        match sys.wait(pid) {
+                            Ok(Some((_, st))) => format!("{rep}{}", show_wait::<VirtualSystem>(st)),
+                            Ok(None) => format!("{rep}RUNNING"),
+                            Err(e) => format!("{rep}{}", errno_name(e)),
+                        }
+                    } else {
+                        rep
+                    }
+                }
+            });
+        }
+        let w: Vec<&str> = op.split_whitespace().collect();
+        match w.as_slice() {
+            ["wz"] => Some(match last_child {
+                None => "?".to_string(),
+                Some(pid) => match sys.wait(pid) {
+                    Ok(Some((_, st))) => show_wait::<VirtualSystem>(st),
+                    Ok(None) => "RUNNING".to_string(),
+                    Err(e) => errno_name(e),
+                },
+            }),
+            ["kz", s] => Some(match last_child {
+                None => "?".to_string(),
+                Some(pid) => {
+                    let sig = if *s == "0" { None } else { Some(signum::<VirtualSystem>(s)?) };
+                    match sys.kill(pid, sig).now_or_never() {
+                        Some(Ok(())) => "ok".to_string(),
+                        Some(Err(e)) => errno_name(e),
+                        None => "BLOCKED".to_string(),
+                    }
+                }
+            }),
+            _ => {
+                let s2 = sys.clone();
+                x_plain_op(sys, op, &move || virtual_pending(&s2))
+            }
+        }
+    };
+    let (outs, fds, tail) = run_ops(&system, "/w", limit, ops, true, &mut hook);
+    let s2 = system.clone();
+    let pending = move || virtual_pending(&s2);
+    let mask = x_plain_op(&system, "mask", &pending).unwrap_or_default();
+    let pend = x_plain_op(&system, "pend", &pending).unwrap_or_default();
+    let mut lines = vec![];
+    let root = system.state.borrow().file_system.get("/w").unwrap();
+    dump_virtual_tree(&root, "", &[], &mut lines);
+    format!("{} | mask{mask} pend{pend}", compose(&outs, &join_sorted(lines), &fds, &x_tail(&system, &tail)))
+}
+
+fn read_report_line(fd: i32) -> String {
+    let mut v = vec![];
+    let mut b = [0u8; 1];
+    loop {
+        // SAFETY: plain read(2) of one byte
+        let n = unsafe { libc::read(fd, b.as_mut_ptr().cast(), 1) };
+        if n == 1 && b[0] != b'\n' {
+            v.push(b[0]);
+        } else if n < 0 && std::io::Error::last_os_error().raw_os_error() == Some(libc::EINTR) {
+            continue;
+        } else {
+            break;
+        }
+    }
+    String::from_utf8_lossy(&v).into_owned()
+}
+
+/// the operations of an `X` case in the forked-off process of the real leg
+fn x_real_body(sys: &RealSystem, root: &str, limit: u64, ops: &[&str]) -> (Vec<String>, String, String) {
+    use yash_env::system::{Exit as _, Fork as _, SendSignal as _, Wait as _};
+    let (rep_r, rep_w) = (result_fd() - 2, result_fd() - 1);
+    let mut last_child: Option<yash_env::job::Pid> = None;
+    let root_owned = root.to_string();
+    let mut hook = |sys: &RealSystem, op: &str| -> Option<String> {
+        if let Some((wait, body)) = x_body(op) {
+            let (res, _) = sys.run_in_child_process(
+                (body, root_owned.clone(), limit),
+                async move |csys: RealSystem, (body, root, limit): (Vec<String>, String, u64)| {
+                    // SAFETY: watchdog
+                    unsafe { libc::alarm(20) };
+                    let (text, code) = x_child(&csys, &root, limit, &body, &real_pending);
+                    let line = format!("{text}\n");
+                    let b = line.as_bytes();
+                    let mut off = 0;
+                    while off < b.len() {
+                        // SAFETY: plain write(2) on the report pipe
+                        let n = unsafe { libc::write(rep_w, b[off..].as_ptr().cast(), b.len() - off) };
+                        if n <= 0 {
+                            break;
+                        }
+                        off += n as usize;
+                    }
+                    csys.exit(yash_env::semantics::ExitStatus(code)).await;
+                },
+            );
+            return Some(match res {
+                Err(e) => errno_name(e),
+                Ok(pid) => {
+                    last_child = Some(pid);
+                    let rep = format!("{{{}}}", read_report_line(rep_r));
+                    // until the child has terminated — without reaping it
+                    let mut info = std::mem::MaybeUninit::<libc::siginfo_t>::zeroed();
+                    loop {
+                        // SAFETY: waitid on a local siginfo
+                        let r = unsafe { libc::waitid(libc::P_PID, pid.0 as libc::id_t, info.as_mut_ptr(), libc::WEXITED | libc::WNOWAIT) };
+                        if r == 0 || std::io::Error::last_os_error().raw_os_error() != Some(libc::EINTR) {
+                            break;
+                        }
+                    }
+                    if wait {
+                        match sys.wait(pid) {
+                            Ok(Some((_, st))) => format!("{rep}{}", show_wait::<RealSystem>(st)),
+                            Ok(None) => format!("{rep}RUNNING"),
+                            Err(e) => format!("{rep}{}", errno_name(e)),
+                        }
+                    } else {
+                        rep
+                    }
+                }
+            });
+        }
+        let w: Vec<&str> = op.split_whitespace().collect();
+        match w.as_slice() {
+            ["wz"] => Some(match last_child {
+                None => "?".to_string(),
+                Some(pid) => match sys.wait(pid) {
+                    Ok(Some((_, st))) => show_wait::<RealSystem>(st),
+                    Ok(None) => "RUNNING".to_string(),
+                    Err(e) => errno_name(e),
+                },
+            }),
+            ["kz", s] => Some(match last_child {
+                None => "?".to_string(),
+                Some(pid) => {
+                    let sig = if *s == "0" { None } else { Some(signum::<RealSystem>(s)?) };
+                    match sys.kill(pid, sig).now_or_never() {
+                        Some(Ok(())) => "ok".to_string(),
+                        Some(Err(e)) => errno_name(e),
+                        None => "BLOCKED".to_string(),
+                    }
+                }
+            }),
+            _ => x_plain_op(sys, op, &real_pending),
+        }
+    };
+    let (outs, fds, tail) = run_ops(sys, root, limit, ops, true, &mut hook);
+    let mask = x_plain_op(sys, "mask", &real_pending).unwrap_or_default();
+    let pend = x_plain_op(sys, "pend", &real_pending).unwrap_or_default();
+    (outs, fds, format!("{} | mask{mask} pend{pend}", x_tail(sys, &tail)))
+}
+
+fn run_x_case(case: &str) {
+    let mut parts = case.split(';').map(|s| s.trim());
+    let head = parts.next().unwrap_or("");
+    let limit: u64 = head
+        .split_whitespace()
+        .find_map(|w| w.strip_prefix("lim=").and_then(|n| n.parse().ok()))
+        .unwrap_or(64);
+    let ops: Vec<&str> = parts.filter(|s| !s.is_empty()).collect();
+    yverif::proto::watch_case(case, 120);
+    let v = guarded(|| x_virtual(limit, &ops));
+    let r = seq_real_kind(limit, &ops, true);
+    let oracle = if v == r { "ok".to_string() } else { format!("FAIL:real-differs({})", first_difference(&v, &r)) };
+    if std::env::var("C19_IMPL").as_deref() == Ok("real") {
         emit(case, &r, "-");
         return;
     }
@@ -1495,6 +1822,182 @@ fn gen_seq(rng: &mut Rng, class: &'static str, thorough: bool) -> String {
     format!("S {class} lim={limit}; {}", g.ops.join("; "))
 }
 
+
+
+// ---- generator of fork / wait cases
+
+const XSIGS: [&str; 5] = ["USR1", "USR2", "TERM", "URG", "WINCH"];
+
+/// what the generator knows about the signal state of the top-level process: it must never be terminated
+struct XSim {
+    mask: Vec<&'static str>,
+    pend: Vec<&'static str>,
+    /// signals the top-level process catches: never raised while unblocked, because a caught signal that the
+    /// parent has not collected yet is reported by `caught_signals()` in a forked child of RealSystem as well
+    /// (its record is a static array that fork copies — D14, a property of RealSystem, not of the kernel)
+    catch: Vec<&'static str>,
+}
+
+fn x_filter(ops: &mut Vec<String>) -> Vec<String> {
+    // no pipes (which ends are open is judged per process by the pivot) and no anonymous files in these cases
+    ops.drain(..).filter(|o| !["pipe", "tmp", "fill", "sel", "nb"].iter().any(|k| o == k || o.starts_with(&format!("{k} ")))).collect()
+}
+
+fn x_parent_op(g: &mut Gen, sim: &mut XSim, out: &mut Vec<String>) {
+    match g.rng.below(10) {
+        0..=4 => {
+            g.step();
+            out.extend(x_filter(&mut g.ops));
+        }
+        5 => {
+            let n = *g.rng.pick(&[5u64, 6, 8, 12, 20, 64]);
+            g.limit = n; // `dup fd min`: min >= limit differs in the errno only (EINVAL / EMFILE), not generated
+            out.push(format!("setlim {n}"));
+        }
+        6 => {
+            let s = *g.rng.pick(&XSIGS);
+            if !sim.mask.contains(&s) {
+                sim.mask.push(s);
+            }
+            out.push(format!("blk {s}"));
+        }
+        7 => {
+            // only a blocked signal (it stays pending) or one whose default action is to ignore it
+            let cands: Vec<&'static str> = XSIGS.iter().copied().filter(|s| sim.mask.contains(s)).collect();
+            if let Some(s) = cands.first().map(|_| *g.rng.pick(&cands)) {
+                if !sim.pend.contains(&s) {
+                    sim.pend.push(s);
+                }
+                out.push(format!("raise {s}"));
+            } else if !sim.catch.contains(&"WINCH") {
+                out.push("raise WINCH".to_string());
+            }
+        }
+        8 => {
+            // never on a pending signal (setting SIG_IGN discards it on a real kernel: divergence D15, not generated)
+            let s = *g.rng.pick(&XSIGS);
+            if !sim.pend.contains(&s) {
+                let d = *g.rng.pick(&["i", "c", "d"]);
+                sim.catch.retain(|x| *x != s);
+                if d == "c" {
+                    sim.catch.push(s);
+                }
+                out.push(format!("act {s} {d}"));
+            }
+        }
+        _ => out.push((*g.rng.pick(&["mask", "pend", "cwd", "rlim", "umask 27", "umask 77", "umask 2"])).to_string()),
+    }
+}
+
+fn x_child_body(g: &mut Gen, class: &str) -> Vec<String> {
+    let mut body: Vec<String> = vec![];
+    // what the child inherited
+    let nq = 2 + g.rng.below(5);
+    for _ in 0..nq {
+        let fd = g.some_fd();
+        let q = match g.rng.below(9) {
+            0 => "cwd".to_string(),
+            1 => "rlim".to_string(),
+            2 => format!("getfd {fd}"),
+            3 => format!("acc {fd}"),
+            4 => "pend".to_string(),
+            5 => "mask".to_string(),
+            6 => format!("get {}", g.rng.pick(&XSIGS)),
+            7 => format!("umask {}", g.rng.pick(&["0", "22", "77", "137"])),
+            _ => "caught".to_string(),
+        };
+        body.push(q);
+    }
+    // what it does with it: stays in the child, except for files and shared offsets
+    let saved_cwd = g.cwd.clone();
+    let saved_limit = g.limit;
+    let nm = if class == "zombie" { g.rng.below(3) } else { 1 + g.rng.below(7) };
+    for _ in 0..nm {
+        match g.rng.below(12) {
+            0..=6 => {
+                g.step();
+                body.extend(x_filter(&mut g.ops));
+            }
+            7 => {
+                let n = *g.rng.pick(&[4u64, 5, 7, 9, 30]);
+                g.limit = n;
+                body.push(format!("setlim {n}"))
+            }
+            8 => body.push(format!("blk {}", g.rng.pick(&XSIGS))),
+            // nothing is pending in a fresh child, so unblocking delivers nothing (if the simulator let the child
+            // inherit a pending signal, this is where it would die)
+            9 => body.push((*g.rng.pick(&["unb USR1+USR2+TERM", "set -", "unb URG+WINCH", "set URG"])).to_string()),
+            10 => body.push(format!("act {} {}", g.rng.pick(&XSIGS), g.rng.pick(&["i", "c"]))),
+            _ => body.push((*g.rng.pick(&["raise URG", "raise WINCH", "caught", "pend"])).to_string()),
+        }
+    }
+    g.cwd = saved_cwd;
+    g.limit = saved_limit;
+    if g.rng.chance(1, 2) {
+        let n = if g.rng.chance(1, 4) { *g.rng.pick(&EXIT_BIG) } else { *g.rng.pick(&EXIT_SMALL) };
+        body.push(format!("exit {n}"));
+    }
+    body
+}
+
+fn gen_x(rng: &mut Rng, class: &'static str) -> String {
+    let limit = *rng.pick(&[64u64, 64, 8, 12]);
+    let mut g = Gen { rng: rng.fork(), class: "clean", limit, cwd: vec![], upper: 3, ops: vec![] };
+    let mut sim = XSim { mask: vec![], pend: vec![], catch: vec![] };
+    let mut out: Vec<String> = vec![];
+    g.clean_open();
+    g.clean_open();
+    out.extend(x_filter(&mut g.ops));
+    for _ in 0..2 + g.rng.below(7) {
+        x_parent_op(&mut g, &mut sim, &mut out);
+    }
+    let children = 1 + g.rng.below(2);
+    for _ in 0..children {
+        let wait = match class {
+            "zombie" => false,
+            "inherit" => g.rng.chance(4, 5),
+            _ => g.rng.chance(1, 2),
+        };
+        let body = x_child_body(&mut g, class);
+        out.push(format!("{}[{}]", if wait { "fork" } else { "spawn" }, body.join(", ")));
+        // the parent afterwards: its own state is untouched, shared offsets and files are not
+        for _ in 0..1 + g.rng.below(4) {
+            let fd = g.some_fd();
+            let q = match g.rng.below(8) {
+                0 => "cwd".to_string(),
+                1 => "rlim".to_string(),
+                2 => format!("getfd {fd}"),
+                3 => format!("seek {fd} c 0"),
+                4 => format!("read {fd} 3"),
+                5 => "mask".to_string(),
+                6 => "pend".to_string(),
+                _ => format!("get {}", g.rng.pick(&XSIGS)),
+            };
+            out.push(q);
+        }
+        // zombie accounting
+        let nz = if wait { g.rng.below(3) } else { 2 + g.rng.below(4) };
+        let mut waited = wait;
+        for _ in 0..nz {
+            let z = match g.rng.below(5) {
+                0 | 1 => {
+                    waited = true;
+                    "wz".to_string()
+                }
+                2 => "kz 0".to_string(),
+                _ => format!("kz {}", g.rng.pick(&["TERM", "USR1", "URG", "KILL", "0"])),
+            };
+            out.push(z);
+        }
+        if !waited && g.rng.chance(2, 3) {
+            out.push("wz".to_string());
+        }
+        for _ in 0..g.rng.below(3) {
+            x_parent_op(&mut g, &mut sim, &mut out);
+        }
+    }
+    format!("X {class} lim={limit}; {}", out.join("; "))
+}
 
 // ------------------------------------------------------------------------------------------
 // process/signal leg: `P <class>; op; op; fork[op, op, …]; …`
@@ -2680,6 +3183,8 @@ fn run_case(case: &str) {
         run_proc_case(case);
     } else if case.starts_with("S ") {
         run_seq_case(case);
+    } else if case.starts_with("X ") {
+        run_x_case(case);
     } else {
         // not a case of this harness (e.g. a shrinking attempt that dropped the header): same answer as the
         // Lean driver gives
@@ -2736,7 +3241,9 @@ fn main() {
         }
     }
     let mut rng = Rng::new(opts.seed ^ 0xC19C_19C1);
-    let n_seq = if thorough { 100_000 } else { 2_400 };
+    // (quick tier: the real legs spend their time waiting for forked processes, ~30 ms per case on a loaded
+    // machine; the counts keep every class at 30+ cases)
+    let n_seq = if thorough { 100_000 } else { 1_000 };
     for i in 0..n_seq {
         let class = if i % 5 < 3 { "clean" } else { CLASSES[1 + (i / 5) % 15] };
         let case = gen_seq(&mut rng, class, thorough);
@@ -2744,7 +3251,15 @@ fn main() {
             run_seq_case(&case);
         }
     }
-    let n_proc = if thorough { 60_000 } else { 1_500 };
+    let n_x = if thorough { 30_000 } else { 300 };
+    for i in 0..n_x {
+        let class = ["inherit", "zombie", "shared"][i % 3];
+        let case = gen_x(&mut rng, class);
+        if mine(&mut index) {
+            run_x_case(&case);
+        }
+    }
+    let n_proc = if thorough { 60_000 } else { 600 };
     for i in 0..n_proc {
         let class = match i % 10 {
             3 | 8 => "exit8",
@@ -2756,7 +3271,7 @@ fn main() {
             run_proc_case(&case);
         }
     }
-    let n_sh = if thorough { 12_000 } else { 300 };
+    let n_sh = if thorough { 12_000 } else { 150 };
     for i in 0..n_sh {
         let (tag, script) = gen_script(&mut rng, i % 4 == 3);
         if mine(&mut index) {
